@@ -210,20 +210,35 @@ def evalLocal (nd : Node) (e : Env) : Bool :=
 
 /-! ### the per-request cache -/
 
+/-- one column of r->cond_cache[] (indexed by context_ndx) -/
+abbrev Col := List Res
+
+def colGet (l : Col) (i : Nat) : Res := l.getD i .unset
+def colSet (l : Col) (i : Nat) (v : Res) : Col := l.set i v
+
 /-- r->cond_cache[]: `res` = cond_cache_t.result, `loc` = cond_cache_t.local_result -/
 structure Cache where
-  res : Nat → Res
-  loc : Nat → Res
+  res : Col
+  loc : Col
+deriving Repr, Inhabited
 
-instance : Inhabited Cache := ⟨⟨fun _ => .unset, fun _ => .unset⟩⟩
+/-- config_cond_cache_reset(): memset 0 over `used` entries -/
+def Cache.empty (n : Nat) : Cache := ⟨List.replicate n .unset, List.replicate n .unset⟩
 
-/-- config_cond_cache_reset(): memset 0 -/
-def Cache.empty : Cache := ⟨fun _ => .unset, fun _ => .unset⟩
+def Cache.setRes (c : Cache) (i : Nat) (v : Res) : Cache := { c with res := colSet c.res i v }
+def Cache.setLoc (c : Cache) (i : Nat) (v : Res) : Cache := { c with loc := colSet c.loc i v }
 
-def upd (f : Nat → Res) (i : Nat) (v : Res) : Nat → Res := fun j => if j = i then v else f j
-
-def Cache.setRes (c : Cache) (i : Nat) (v : Res) : Cache := { c with res := upd c.res i v }
-def Cache.setLoc (c : Cache) (i : Nat) (v : Res) : Cache := { c with loc := upd c.loc i v }
+/-- the tail of config_check_cond_nocache() once parent and prev allow the block:
+    field available?  remembered local result?  else evaluate and remember it -/
+def localStep (valid : Comp → Bool) (nd : Node) (e : Env) (i : Nat) (c : Cache) : Res × Cache :=
+  if !valid nd.comp then (.unset, c)
+  else
+    match colGet c.loc i with
+    | .true_ => (.true_, c.setRes i .true_)
+    | .false_ => (.false_, c.setRes i .false_)
+    | _ =>
+      let r := Res.ofBool (evalLocal nd e)
+      (r, (c.setLoc i r).setRes i r)
 
 /-- config_check_cond_cached() / config_check_cond() with config_check_cond_nocache()
     inlined.  `valid c` = bit `c` of r->conditional_is_valid.  The first argument is
@@ -231,44 +246,36 @@ def Cache.setLoc (c : Cache) (i : Nat) (v : Res) : Cache := { c with loc := upd 
 def check (t : Tree) (e : Env) (valid : Comp → Bool) : Nat → Nat → Cache → Res × Cache
   | 0, _, c => (.unset, c)
   | f + 1, i, c =>
-    if c.res i ≠ .unset then (c.res i, c)
+    if colGet c.res i ≠ .unset then (colGet c.res i, c)
     else
       let nd := t.node i
       -- check parent first
-      let (pr, c1) := if nd.parent ≠ 0 then check t e valid f nd.parent c else (Res.true_, c)
-      match pr with
-      | .unset => (.unset, c1)
-      | .skip => (.skip, c1.setRes i .skip)
-      | .false_ => (.skip, c1.setRes i .skip)
+      let p := if nd.parent ≠ 0 then check t e valid f nd.parent c else (Res.true_, c)
+      match p.1 with
+      | .unset => (.unset, p.2)
+      | .skip => (.skip, p.2.setRes i .skip)
+      | .false_ => (.skip, p.2.setRes i .skip)
       | .true_ =>
         -- an else branch runs only if the previous branch evaluated to false
-        let (qr, c2) := match nd.prev with
-          | some q => check t e valid f q c1
-          | none => (Res.false_, c1)
-        match qr with
-        | .unset => (.unset, c2)
-        | .skip => (.skip, c2.setRes i .skip)
-        | .true_ => (.skip, c2.setRes i .skip)
-        | .false_ =>
-          if !valid nd.comp then (.unset, c2)
-          else
-            match c2.loc i with
-            | .true_ => (.true_, c2.setRes i .true_)
-            | .false_ => (.false_, c2.setRes i .false_)
-            | _ =>
-              let r := Res.ofBool (evalLocal nd e)
-              (r, (c2.setLoc i r).setRes i r)
+        let q := match nd.prev with
+          | some k => check t e valid f k p.2
+          | none => (Res.false_, p.2)
+        match q.1 with
+        | .unset => (.unset, q.2)
+        | .skip => (.skip, q.2.setRes i .skip)
+        | .true_ => (.skip, q.2.setRes i .skip)
+        | .false_ => localStep valid nd e i q.2
 
 /-- config_cond_clear_node().  `always = true` is the code as it is now: the
     else-chain (`dc->next`) is walked even if this node is already unset.
     `always = false` is the walk before fix f0e74a5 (kept to state the
     counterexample in Props/C14.lean). -/
-def clearNode (always : Bool) (t : Tree) : Nat → Nat → (Nat → Res) → (Nat → Res)
+def clearNode (always : Bool) (t : Tree) : Nat → Nat → Col → Col
   | 0, _, res => res
   | f + 1, i, res =>
     let nd := t.node i
-    if res i ≠ .unset then
-      let res1 := upd res i .unset
+    if colGet res i ≠ .unset then
+      let res1 := colSet res i .unset
       let res2 := (nd.children.filter fun ch => (t.node ch).prev.isNone).foldl
         (fun r ch => clearNode always t f ch r) res1
       match nd.next with
@@ -285,7 +292,7 @@ def resetItem (always : Bool) (t : Tree) (a : Comp) (c : Cache) : Cache :=
   (List.range t.length).foldl
     (fun c i =>
       if (t.node i).comp = a then
-        { res := clearNode always t t.length i c.res, loc := upd c.loc i .unset }
+        { res := clearNode always t t.length i c.res, loc := colSet c.loc i .unset }
       else c) c
 
 /-! ### directive merge -/
@@ -325,7 +332,10 @@ structure Req where
   valid : Comp → Bool
   cache : Cache
 
-instance : Inhabited Req := ⟨⟨default, fun _ => false, Cache.empty⟩⟩
+instance : Inhabited Req := ⟨⟨default, fun _ => false, Cache.empty 0⟩⟩
+
+/-- a fresh request_st (request_init_data(): calloc'ed cache, no field valid yet) -/
+def Req.fresh (n : Nat) : Req := ⟨default, fun _ => false, Cache.empty n⟩
 
 inductive Op where
   | check (s i : Nat)                              -- config_check_cond(r, i)
@@ -363,7 +373,7 @@ def step (always : Bool) (t : Tree) (st : List Req) : Op → List Req × Obs
   | .resetAll s =>
     match st[s]? with
     | none => (st, .none)
-    | some rq => (st.set s { rq with cache := Cache.empty }, .none)
+    | some rq => (st.set s { rq with cache := Cache.empty t.length }, .none)
   | .setValid s v =>
     match st[s]? with
     | none => (st, .none)
@@ -372,7 +382,7 @@ def step (always : Bool) (t : Tree) (st : List Req) : Op → List Req × Obs
     match st[s]? with
     | none => (st, .none)
     | some rq =>
-      (st.set s { env := applySets rq.env sets, valid := validOf v, cache := Cache.empty }, .none)
+      (st.set s { env := applySets rq.env sets, valid := validOf v, cache := Cache.empty t.length }, .none)
   | .spawn =>
     match st[0]? with
     | none => (st, .none)
